@@ -2,15 +2,15 @@
   Line protocol of the IAM model (STATEFUL handler: the model state is threaded through the
   driver like `gw`).
 
-    iam reset <cache 0/1> <copyIds 0/1> <invalidate 0/1> <ttl> <now> <root acct> <accts|->   -> ok
+    iam reset <cache 0/1> <copyIds 0/1 (regression model)> <invalidate 0/1 (1 = current code)> <ttl> <now> <root acct> <accts|->   -> ok
     iam call <op>                 one call alone, invocation to return        -> <res>
     iam invoke <op>               a call enters (gets the next index)         -> id=<n>
     iam step <i>                  next atomic step of call i                  -> <pc>
     iam seg <i>                   steps of call i up to its next yield point (gMiss, gFetched,
                                   mCache) or its return (at least one step)   -> <pc>
     iam tick <n> | iam gc                                                     -> ok
-    iam quiet                     was the schedule since `reset` quiet (side condition of
-                                  Props.C17.lookup_after_ack_partial, `quietRunB`)?  -> 1 | 0
+    iam quiet                     was the schedule since `reset` quiet by the standard of the
+                                  regression model (old write-through cache, `quietRunB`)? -> 1 | 0
     iam dump                                                                  -> file/cache image
     iam spec <root acct> <accts|-> <op>…      (stateless) answers of the plain map, in order
                                               (listings are shown as `accts=-`; judged by `lin`)
@@ -33,8 +33,8 @@ structure DState where
   v : Variant := {}
   cfg : Cfg := { root := { access := [], secret := [], role := .admin }, ttl := 0 }
   σ : State := {}
-  /-- the schedule executed since the last reset satisfies the side condition of the `_partial`
-  theorems (`quietRunB`) -/
+  /-- the schedule executed since the last reset satisfies the side condition that the regression
+  model (old write-through cache) needed (`quietRunB`) -/
   quiet : Bool := true
 
 def parseRole : String → Option Role
